@@ -1,12 +1,16 @@
 """C19 — a job accepted by the builder is well formed and carries the values given.
 
-Tie: the real TaskBuilder.from_callable / with_values and JobBuilder.with_node / with_edge / build
+Tie: the real TaskBuilder.from_callable / from_entrypoint / with_values and JobBuilder.with_node / with_edge / build
 (cascade/low/builders.py) against Model/Builder.lean, op by op, on random builder programs. Every
 builder call creates a new object; after every op ALL objects created so far are re-snapshotted on
 the real side and compared with the model's (append-only) store.
-Oracle: written from the property text only (no use of the model): build never raises, an accepted
-job has only well-formed edges and is exactly the description given, bound values sit under exactly
-the given positions / names, earlier builders / jobs never change.
+Oracle: written from the property text only (no use of the model): build never raises; it accepts if and only if every
+edge of the description is well formed (existing ends, compatible declared types, no input fed by two edges) and every
+keyword static fits its declared builtin type, and reports only problems the description has; an accepted job is exactly
+the description given; bound values sit under exactly the given positions / names; the definition (entrypoint, func,
+environment, needs_gpu) is what was asked for; earlier builders / jobs / tasks never change — judged on a complete
+fingerprint (pydantic model_dump of every earlier object after every call), which is what carries the non-mutation
+clause of the property (the Lean model has values, not references).
 """
 import builtins
 import copy
@@ -15,42 +19,74 @@ import json
 import re
 
 PROPERTY = "C19"
-LEVEL_TEXT = ("Lean theorems over Model/Builder.lean (from_callable, with_values, with_node, with_edge, build with get_edge_errors branch by "
-              "branch): an accepted job has exactly the builder's tasks and edges and every edge starts at an existing output of an existing "
-              "task and ends at an existing task and (keyword edges) an existing parameter of compatible declared type; for tasks whose "
-              "declared types are absent or evaluable (builtin) classes build returns a job or a non-empty problem list, never an exception, "
-              "for every program of builder calls; with_values binds args[i] under position i and the last k=v under k, overriding earlier "
-              "bindings and defaults only there; every builder call creates a new object and earlier objects never change. Unbounded in the "
-              "number of tasks, parameters, values, edges and calls; tied to the real builders by an op-by-op correspondence check.")
-LEVEL_NOTE = ("modelled, not verified: builders.py TaskBuilder.from_callable/with_values, JobBuilder.with_node/with_edge/build; inspect.signature, "
-              "pydantic validation/model_copy, pyrsistent and cloudpickle are exercised by the real calls but trusted. The type universe is a "
-              "parameter of the model (evaluable names + subclass relation); the driver instantiates it with the builtin classes. static_input_ps "
-              "keys are positions (Nat) in the model, str(position) in the code. Annotations that are not classes (-> None, typing constructs) "
-              "are outside the quantifier: from_callable raises AttributeError on `-> None`.")
-TECHNIQUE = "Lean 4 proof (case analysis of get_edge_errors, induction over dict merges and over builder programs) + differential correspondence with the real builders"
+LEVEL_TEXT = ("Lean theorems over Model/Builder.lean (from_callable, from_entrypoint, with_values, with_node, with_edge, build with get_edge_errors "
+              "branch by branch and the fan-in check): an accepted job has exactly the builder's tasks and edges, every edge starts at an existing "
+              "output of an existing task and ends at an existing task and (keyword edges) an existing parameter of compatible declared type, and no "
+              "two edges end at the same input of the same task; read as a scheduler job (Model/Presched.lean) every job any program of builder calls "
+              "gets accepted satisfies C16's Job.WF and UniqueInputs (c19_accepted_presched_wf_run) - acyclicity is NOT established by build "
+              "(c19_accepted_may_be_cyclic); a description with an input fed twice is never accepted; for tasks whose declared types are absent, "
+              "nameless (None, unions) or evaluable builtin classes build returns a job or a non-empty problem list, never an exception, for every "
+              "program of builder calls; with_values binds args[i] under position i and the last k=v under k, overriding earlier bindings and defaults "
+              "only there. Unbounded in the number of tasks, parameters, values, edges and calls. The clause 'building never mutates previously built "
+              "jobs' is NOT carried by a theorem (the model has values, not references: c19_persistent only says that the model's store is "
+              "append-only): it is carried by the correspondence check, which after every call re-reads every earlier real object (complete pydantic "
+              "model_dump fingerprints, incl. definition.func / environment / entrypoint / needs_gpu) and compares it with that store.")
+LEVEL_NOTE = ("modelled, not verified: builders.py TaskBuilder.from_callable/from_entrypoint/with_values, JobBuilder.with_node/with_edge/build; "
+              "inspect.signature, pydantic validation/model_copy, pyrsistent and cloudpickle are exercised by the real calls but trusted. The type universe "
+              "is a parameter of the model (evaluable names + subclass relation); the driver instantiates it with the builtin classes. static_input_ps "
+              "keys are positions (Nat) in the model, str(position) in the code (formatted in the driver). Annotations naming something that is not a "
+              "builtin class (user classes, typing.Optional[...] whose __name__ is 'Optional') are outside the quantifier: build raises NameError for "
+              "them (counted, exempt). Node iteration order of pyrsistent.PMap is abstracted (static-type problems compared as a set). Aliasing between "
+              "builders / jobs / tasks (shared TaskInstance objects) is not modelled; see LEVEL_TEXT for how non-mutation is checked.")
+TECHNIQUE = ("Lean 4 proof (case analysis of get_edge_errors, induction over dict merges, the fan-in scan and builder programs; implication to the "
+             "hypotheses of the C16 model) + differential correspondence with the real builders + independent oracle (accept iff well formed)")
 LEAN_PROPS = ["EkwVerif.Props.C19"]
 LEAN_DRIVERS = ["C19"]
-RULE = ("random builder programs of 6-22 calls over an object store: from_callable on exec-generated signatures (positional-only, "
-        "positional-or-keyword, *args, keyword-only, **kw; defaults; builtin / absent / string annotations, a few non-evaluable ones), "
-        "with_values with 0-3 positional and 0-2 keyword values (ints, 2-character strings, pairs, lists, None, bool, float, bytes, dict; "
-        "matching or violating the annotation; unknown keywords), with_node (incl. re-binding a name), with_edge (existing and dangling: "
-        "missing source task / source output / sink task / sink parameter, positional edges, type-compatible and incompatible), build on any "
-        "earlier builder. non-trivial = program with an accepted job having >= 1 edge or a problem list with an edge problem; distinct by content hash")
+RULE = ("random builder programs of 6-22 calls over an object store: from_callable on generated callables of the forms def / lambda / bound method / "
+        "classmethod / staticmethod / functools.partial (positional and keyword-bound) / class / C builtin, with an effective signature computed by the "
+        "generator and cross-checked with inspect (positional-only, positional-or-keyword, *args, keyword-only, **kw; defaults; annotations: absent, "
+        "builtin class, string, nameless objects (None, int | None), generic aliases, typing constructs, a few non-evaluable names), environment "
+        "omitted / empty / given; from_entrypoint; with_values with 0-7 positional and 0-2 keyword values; with_node (incl. re-binding a name, names "
+        "with dots, the empty name); with_edge with `frum` omitted or given, existing and dangling ends, positional (also negative) and keyword inputs, "
+        "type-compatible and incompatible, and inputs that an earlier edge of the builder already feeds; build on any earlier builder. non-trivial = "
+        "program with an accepted job having >= 1 edge or a problem list with an edge problem; distinct by content hash")
 ASSUMPTIONS = [
-    "annotations are builtin classes, absent, or strings naming them (the property's quantifier); a few non-evaluable names exercise the NameError branch and are exempt from the crash oracle",
+    "annotations are builtin classes, absent, strings naming them, or objects without __name__ (the property's quantifier); non-evaluable names exercise the NameError branch and are exempt from the crash oracle",
     "values are compared by (class name, repr)",
     "node iteration order of pyrsistent.PMap is not part of the property: problem lists are compared with the static-input part sorted",
+    "oracle reading of 'otherwise it returns the list of problems': build accepts IF AND ONLY IF the description is well formed (for builtin/absent types), and every reported problem is one the description has",
+    "a default value whose != with inspect.Parameter.empty is not a plain bool (numpy arrays, objects with odd __ne__) is not generated",
 ]
 
 BUILTIN_TYS = ["int", "str", "float", "bool", "list", "tuple", "dict", "bytes", "object"]
 EXOTIC_TYS = ["grib.mir", "grib.earthkit", "latitude", "Foo"]
+# annotation OBJECTS that are neither classes nor strings: (source, how, what `__name__` gives)
+NAMELESS_ANNS = ["None", "int | None", "str | int", "None | float"]                      # no __name__ at all
+GENERIC_ANNS = [("list[int]", "list"), ("dict[str, int]", "dict"), ("tuple[int, ...]", "tuple")]   # __name__ of the origin class
+TYPING_ANNS = [("Optional[int]", "Optional"), ("Union[int, str]", "Union"), ("List[int]", "List")]  # names that are no classes
 VALUE_POOL = ["7", "0", "-3", "'xy'", "'ab'", "'q'", "''", "'hello'", "('x', 1)", "(1, 2)", "('a', 'b')", "[1, 2]", "['k', 'v']",
               "None", "True", "1.5", "b'ab'", "{'a': 1}"]
 BY_TYPE = {}
 for _r in VALUE_POOL:
     BY_TYPE.setdefault(type(eval(_r)).__name__, []).append(_r)
-NAMES = ["s", "k", "m", "n"]
+NAMES = ["s", "k", "m", "n", "a.b", "s.0", ""]
+NAME_WEIGHTS = [6, 6, 5, 5, 2, 1, 1]
 PARAMS = ["a", "b", "c", "d", "x", "y"]
+ENVS = [None, None, None, [], ["numpy"], ["numpy", "xarray>=2024"]]
+FORMS = ["def"] * 10 + ["lambda", "method", "classmethod", "staticmethod", "partial", "partial", "class", "builtin"]
+
+# C builtins: (expression, effective signature as (name, kind, default-repr|None)); checked against inspect.signature at import
+BUILTIN_CALLABLES = {
+    "len": ("len", [("obj", "posOnly", None)]),
+    "divmod": ("divmod", [("x", "posOnly", None), ("y", "posOnly", None)]),
+    "sorted": ("sorted", [("iterable", "posOnly", None), ("key", "kwOnly", "None"), ("reverse", "kwOnly", "False")]),
+    "pow": ("pow", [("base", "posOrKw", None), ("exp", "posOrKw", None), ("mod", "posOrKw", "None")]),
+    "round": ("round", [("number", "posOrKw", None), ("ndigits", "posOrKw", "None")]),
+    "isinstance": ("isinstance", [("obj", "posOnly", None), ("class_or_tuple", "posOnly", None)]),
+    "print": ("print", [("args", "varPos", None), ("sep", "kwOnly", "' '"), ("end", "kwOnly", "'\\n'"), ("file", "kwOnly", "None"), ("flush", "kwOnly", "False")]),
+    "dict.get": ("dict.get", [("self", "posOnly", None), ("key", "posOnly", None), ("default", "posOnly", "None")]),
+    "str.upper": ("str.upper", [("self", "posOnly", None)]),
+}
 
 
 def mkval(r):
@@ -64,15 +100,27 @@ def pyval(v):
 
 # ----------------------------------------------------------------------------- generator
 
-def gen_ann(rng):
+def gen_ann(rng, plain_only=False):
+    """(name as the builder will see it | None, how, source text)."""
     x = rng.random()
-    if x < 0.38:
-        return None, "absent"
+    if x < 0.34 or plain_only:
+        return None, "absent", None
+    if x < 0.74:
+        t = rng.choice(BUILTIN_TYS)
+        return t, "class", t
+    if x < 0.80:
+        t = rng.choice(BUILTIN_TYS)
+        return t, "string", repr(t)
     if x < 0.88:
-        return rng.choice(BUILTIN_TYS), "class"
+        return None, "nameless", rng.choice(NAMELESS_ANNS)
+    if x < 0.92:
+        src, nm = rng.choice(GENERIC_ANNS)
+        return nm, "generic", src
     if x < 0.95:
-        return rng.choice(BUILTIN_TYS), "string"
-    return rng.choice(EXOTIC_TYS), "string"
+        src, nm = rng.choice(TYPING_ANNS)
+        return nm, "typing", src
+    t = rng.choice(EXOTIC_TYS)
+    return t, "string", repr(t)
 
 
 def gen_default(rng, ann):
@@ -82,6 +130,14 @@ def gen_default(rng, ann):
 
 
 def gen_sig(rng):
+    form = rng.choice(FORMS)
+    env = rng.choice(ENVS)
+    if form == "builtin":
+        name = rng.choice(sorted(_BUILTINS_OK))
+        params = [{"name": n, "kind": k, "ann": None, "how": "absent", "src": None, "dflt": (mkval(d) if d is not None else None)}
+                  for n, k, d in BUILTIN_CALLABLES[name][1]]
+        return {"op": "task", "form": "builtin", "builtin": name, "params": params, "ret": None, "rhow": "absent", "rsrc": None, "env": env}
+    plain = form == "lambda"
     names = rng.sample(PARAMS, rng.randint(0, 4))
     n = len(names)
     cut1 = rng.randint(0, n) if rng.random() < 0.25 else 0          # positional-only prefix
@@ -90,7 +146,7 @@ def gen_sig(rng):
     seen_default = False
     for i, nm in enumerate(names):
         kind = "posOnly" if i < cut1 else ("posOrKw" if i < cut2 else "kwOnly")
-        ann, how = gen_ann(rng)
+        ann, how, src = gen_ann(rng, plain)
         dflt = None
         if kind == "kwOnly":
             if rng.random() < 0.4:
@@ -99,27 +155,51 @@ def gen_sig(rng):
             if seen_default or rng.random() < 0.3:
                 dflt = gen_default(rng, ann)
                 seen_default = True
-        params.append({"name": nm, "kind": kind, "ann": ann, "how": how, "dflt": dflt})
+        params.append({"name": nm, "kind": kind, "ann": ann, "how": how, "src": src, "dflt": dflt})
     varpos = rng.random() < 0.15
     varkw = rng.random() < 0.15
     out = []
     for p in params:
         if p["kind"] == "kwOnly" and not any(q["kind"] in ("kwOnly", "varPos") for q in out):
             if varpos:
-                out.append({"name": "rest", "kind": "varPos", "ann": None, "how": "absent", "dflt": None})
+                out.append({"name": "rest", "kind": "varPos", "ann": None, "how": "absent", "src": None, "dflt": None})
         out.append(p)
     if varpos and not any(q["kind"] == "varPos" for q in out):
-        out.append({"name": "rest", "kind": "varPos", "ann": None, "how": "absent", "dflt": None})
+        out.append({"name": "rest", "kind": "varPos", "ann": None, "how": "absent", "src": None, "dflt": None})
     if varkw:
-        out.append({"name": "kws", "kind": "varKw", "ann": None, "how": "absent", "dflt": None})
-    ret, rhow = gen_ann(rng)
-    return {"op": "task", "params": out, "ret": ret, "rhow": rhow}
+        out.append({"name": "kws", "kind": "varKw", "ann": None, "how": "absent", "src": None, "dflt": None})
+    ret, rhow, rsrc = gen_ann(rng, plain)
+    if form == "class" and rng.random() < 0.7:
+        ret, rhow, rsrc = None, "nameless", "None"                    # the usual `def __init__(self, ...) -> None`
+    op = {"op": "task", "form": form, "params": out, "ret": ret, "rhow": rhow, "rsrc": rsrc, "env": env}
+    if form == "partial":
+        # keyword-only parameters WITH a default may get that default from the partial instead of from the def
+        op["bound_kw"] = [p["name"] for p in out if p["kind"] == "kwOnly" and p["dflt"] is not None and rng.random() < 0.6]
+    return op
 
 
-def sig_source(op):
-    """Python source of a callable with the described signature."""
+def gen_entry(rng):
+    schema = [[k, rng.choice(BUILTIN_TYS + ["Any", "Any", "Foo"])] for k in rng.sample(PARAMS, rng.randint(0, 3))]
+    return {"op": "entry", "entrypoint": rng.choice(["pkg.mod.fn", "m.f", ""]), "schema": schema,
+            "out": rng.choice(BUILTIN_TYS + ["Any", "Any", "grib.mir"]), "env": rng.choice(ENVS)}
+
+
+def _ann_src(p, key_how="how", key_src="src", key_ann="ann"):
+    how = p.get(key_how, "absent")
+    if how == "absent":
+        return None
+    src = p.get(key_src)
+    if src is not None:
+        return src
+    return repr(p[key_ann]) if how == "string" else p[key_ann]        # ops of the first version of the corpus
+
+
+def _params_src(ps, lead=None, no_default=()):
+    """Python source of a parameter list; `lead` = extra first parameter (self / cls / the one a partial binds)."""
     parts = []
-    ps = op["params"]
+    if lead is not None:
+        parts.append(lead)
+    need_slash = lead is not None and any(p["kind"] == "posOnly" for p in ps)
     for i, p in enumerate(ps):
         if p["kind"] == "varPos":
             parts.append("*" + p["name"])
@@ -130,27 +210,93 @@ def sig_source(op):
         if p["kind"] == "kwOnly" and not any(q["kind"] in ("kwOnly", "varPos") for q in ps[:i]):
             parts.append("*")
         s = p["name"]
-        if p["ann"] is not None:
-            s += ": " + (repr(p["ann"]) if p["how"] == "string" else p["ann"])
-        if p["dflt"] is not None:
-            s += (" = " if p["ann"] is not None else "=") + p["dflt"]["r"]
+        a = _ann_src(p)
+        if a is not None:
+            s += ": " + a
+        if p["dflt"] is not None and p["name"] not in no_default:
+            s += (" = " if a is not None else "=") + p["dflt"]["r"]
         parts.append(s)
         if p["kind"] == "posOnly" and (i + 1 == len(ps) or ps[i + 1]["kind"] != "posOnly"):
             parts.append("/")
-    ret = ""
-    if op["ret"] is not None:
-        ret = " -> " + (repr(op["ret"]) if op["rhow"] == "string" else op["ret"])
-    return "def f(" + ", ".join(parts) + ")" + ret + ":\n    return None\n"
+    return ", ".join(parts)
+
+
+def sig_source(op):
+    """Python source that leaves the callable in the name `f` (the effective signature of `f` is op['params'] / op['ret'])."""
+    form = op.get("form", "def")
+    ps = op["params"]
+    r = _ann_src(op, "rhow", "rsrc", "ret")
+    ret = "" if r is None else " -> " + r
+    head = "from typing import Optional, Union, List\nimport functools\n"
+    if form == "builtin":
+        return "f = " + BUILTIN_CALLABLES[op["builtin"]][0] + "\n"
+    if form == "lambda":
+        return "f = lambda " + _params_src(ps) + ": None\n"
+    if form == "method":
+        return head + "class C:\n    def f(" + _params_src(ps, "self") + ")" + ret + ":\n        return None\nf = C().f\n"
+    if form == "classmethod":
+        return head + "class C:\n    @classmethod\n    def f(" + _params_src(ps, "cls") + ")" + ret + ":\n        return None\nf = C.f\n"
+    if form == "staticmethod":
+        return head + "class C:\n    @staticmethod\n    def f(" + _params_src(ps) + ")" + ret + ":\n        return None\nf = C.f\n"
+    if form == "class":
+        return head + "class C:\n    def __init__(" + _params_src(ps, "self") + ")" + ret + ":\n        pass\nf = C\n"
+    if form == "partial":
+        bound = op.get("bound_kw", [])
+        kws = "".join(", %s=%s" % (p["name"], p["dflt"]["r"]) for p in ps if p["name"] in bound)
+        return (head + "def g(" + _params_src(ps, "p0_", no_default=bound) + ")" + ret + ":\n    return None\n"
+                "f = functools.partial(g, 11" + kws + ")\n")
+    return head + "def f(" + _params_src(ps) + ")" + ret + ":\n    return None\n"
+
+
+def make_callable(op):
+    ns = {"__name__": "__main__"}
+    exec(sig_source(op), ns)
+    return ns["f"]
+
+
+def effective_signature_ok(f, op):
+    """Harness self-check (inspect only, no builder code): the callable really has the signature the op describes."""
+    import inspect
+    kinds = {inspect.Parameter.POSITIONAL_ONLY: "posOnly", inspect.Parameter.POSITIONAL_OR_KEYWORD: "posOrKw",
+             inspect.Parameter.VAR_POSITIONAL: "varPos", inspect.Parameter.KEYWORD_ONLY: "kwOnly", inspect.Parameter.VAR_KEYWORD: "varKw"}
+    try:
+        sig = inspect.signature(f)
+    except Exception:
+        return False
+    got = [(p.name, kinds[p.kind], None if p.default is inspect.Parameter.empty else repr(p.default)) for p in sig.parameters.values()]
+    want = [(p["name"], p["kind"], None if p["dflt"] is None else p["dflt"]["r"]) for p in op["params"]]
+    return got == want
+
+
+def _check_builtin_table():
+    ok = set()
+    for name, (expr, params) in BUILTIN_CALLABLES.items():
+        op = {"params": [{"name": n, "kind": k, "dflt": (mkval(d) if d is not None else None)} for n, k, d in params]}
+        try:
+            if effective_signature_ok(eval(expr), op):
+                ok.add(name)
+        except Exception:
+            pass
+    return ok
+
+
+_BUILTINS_OK = _check_builtin_table() or {"len"}
 
 
 def kw_params(op):
+    if op["op"] == "entry":
+        return [{"name": k, "ann": t} for k, t in op["schema"]]
     return [p for p in op["params"] if p["kind"] in ("posOrKw", "kwOnly")]
+
+
+def _name(rng):
+    return rng.choices(NAMES, NAME_WEIGHTS)[0]
 
 
 def gen_program(rng, nops):
     ops = []
     kinds = []          # kind of the object each op creates
-    sigs = {}           # object index of a task -> the `task` op it descends from
+    sigs = {}           # object index of a task -> the `task` / `entry` op it descends from
 
     def add(op, kind, sig=None):
         ops.append(op)
@@ -159,27 +305,32 @@ def gen_program(rng, nops):
             sigs[len(ops) - 1] = sig
         return len(ops) - 1
 
-    for _ in range(rng.randint(2, 3)):
-        s = gen_sig(rng)
+    def new_task():
+        s = gen_entry(rng) if rng.random() < 0.08 else gen_sig(rng)
         add(s, "task", s)
+
+    for _ in range(rng.randint(2, 3)):
+        new_task()
     add({"op": "builder"}, "builder")
     bnodes = {len(ops) - 1: {}}     # builder index -> name -> task index
-    for name in rng.sample(NAMES, 2):
-        t = rng.randrange(len(sigs))
+    bedges = {len(ops) - 1: []}     # builder index -> [(sink, into)]
+    tasks0 = [i for i, k in enumerate(kinds) if k == "task"]
+    for name in rng.sample(NAMES[:4], 2):
+        t = rng.choice(tasks0)
         i = add({"op": "node", "b": len(ops) - 1, "name": name, "t": t}, "builder")
         bnodes[i] = dict(bnodes[i - 1])
         bnodes[i][name] = t
+        bedges[i] = list(bedges[i - 1])
     while len(ops) < nops:
         tasks = [i for i, k in enumerate(kinds) if k == "task"]
         blds = [i for i, k in enumerate(kinds) if k == "builder"]
         r = rng.random()
         if r < 0.08:
-            s = gen_sig(rng)
-            add(s, "task", s)
+            new_task()
         elif r < 0.28:
             t = rng.choice(tasks)
             sig = sigs[t]
-            args = [mkval(rng.choice(VALUE_POOL)) for _ in range(rng.choice([0, 0, 1, 1, 1, 2, 3]))]
+            args = [mkval(rng.choice(VALUE_POOL)) for _ in range(rng.choice([0, 0, 1, 1, 1, 2, 3, 5, 7]))]
             kwargs = []
             cand = kw_params(sig)
             for _ in range(rng.choice([0, 1, 1, 2])):
@@ -198,30 +349,42 @@ def gen_program(rng, nops):
         elif r < 0.32:
             add({"op": "builder"}, "builder")
             bnodes[len(ops) - 1] = {}
+            bedges[len(ops) - 1] = []
         elif r < 0.55:
             b = rng.choice(blds[-3:])
             t = rng.choice(tasks)
-            name = rng.choice(NAMES)
+            name = _name(rng)
             i = add({"op": "node", "b": b, "name": name, "t": t}, "builder")
             bnodes[i] = dict(bnodes[b])
             bnodes[i][name] = t
+            bedges[i] = list(bedges[b])
         elif r < 0.82:
             b = rng.choice(blds[-3:])
             have = sorted(bnodes[b])
             pick = lambda: rng.choice(have) if have and rng.random() < 0.9 else rng.choice(NAMES + ["nope"])
             src, sink = pick(), pick()
             x = rng.random()
-            if x < 0.15:
-                into = rng.choice([0, 0, 1, 2, -1])
+            if bedges[b] and x < 0.14:
+                sink, into = rng.choice(bedges[b])             # an input that an edge of this builder already feeds
+            elif x < 0.28:
+                into = rng.choice([0, 0, 1, 2, -1, 5])
             elif sink in bnodes[b] and kw_params(sigs[bnodes[b][sink]]) and x < 0.9:
                 into = rng.choice(kw_params(sigs[bnodes[b][sink]]))["name"]
             elif sink in bnodes[b] and x < 0.8:
                 into = 0                                   # sink without keyword-capable parameters
             else:
                 into = rng.choice(PARAMS + ["nope"])
-            frum = "0" if rng.random() < 0.9 else rng.choice(["1", "out"])
-            i = add({"op": "edge", "b": b, "src": src, "sink": sink, "into": into, "frum": frum}, "builder")
+            op = {"op": "edge", "b": b, "src": src, "sink": sink, "into": into}
+            y = rng.random()
+            if y < 0.45:
+                pass                                       # `frum` omitted: the default of with_edge
+            elif y < 0.9:
+                op["frum"] = "0"
+            else:
+                op["frum"] = rng.choice(["1", "out"])
+            i = add(op, "builder")
             bnodes[i] = dict(bnodes[b])
+            bedges[i] = bedges[b] + [(sink, into)]
         else:
             add({"op": "build", "b": rng.choice(blds[-4:])}, "result")
     if kinds[-1] != "result":
@@ -233,15 +396,23 @@ def gen_program(rng, nops):
 def strip(op):
     """The op as sent to the Lean driver (generator bookkeeping removed)."""
     if op["op"] == "task":
-        return {"op": "task", "ret": op["ret"],
-                "params": [{"name": p["name"], "kind": p["kind"], "ann": p["ann"], "dflt": p["dflt"]} for p in op["params"]]}
+        def how(h):
+            return "nameless" if h == "nameless" else ("absent" if h == "absent" else "named")
+        return {"op": "task", "ret": op["ret"], "rhow": how(op.get("rhow", "absent" if op["ret"] is None else "named")),
+                "env": op.get("env") or [],
+                "params": [{"name": p["name"], "kind": p["kind"], "ann": p["ann"], "how": how(p.get("how", "absent" if p["ann"] is None else "named")),
+                            "dflt": p["dflt"]} for p in op["params"]]}
+    if op["op"] == "entry":
+        return {"op": "entry", "entrypoint": op["entrypoint"], "schema": op["schema"], "out": op["out"], "env": op.get("env") or []}
     return op
 
 
 # ----------------------------------------------------------------------------- real side
 
 _STATIC_RE = re.compile(r"^invalid static input for (.*?): (.*?) needs (.*?), got <class '(.*)'>$")
-_INCOMP_RE = re.compile(r"^edge connects two incompatible nodes: source=(.*)\.([^. ]*) sink_task='(.*?)' sink_input_kw=(None|'.*?') sink_input_ps=(None|-?\d+)$")
+_EDGE_RE = r"source=(.*)\.([^. ]*) sink_task='(.*?)' sink_input_kw=(None|'.*?') sink_input_ps=(None|-?\d+)$"
+_INCOMP_RE = re.compile(r"^edge connects two incompatible nodes: " + _EDGE_RE)
+_FED_RE = re.compile(r"^edge pointing to an input that another edge already feeds: " + _EDGE_RE)
 
 
 def parse_problem(s):
@@ -250,11 +421,12 @@ def parse_problem(s):
     m = _STATIC_RE.match(s)
     if m:
         return ["staticType", m.group(1), m.group(2), m.group(3), m.group(4)]
-    m = _INCOMP_RE.match(s)
-    if m:
-        kw = None if m.group(4) == "None" else m.group(4)[1:-1]
-        ps = None if m.group(5) == "None" else int(m.group(5))
-        return ["incompatible", [m.group(1), m.group(2), m.group(3), kw, ps]]
+    for rx, tag in ((_INCOMP_RE, "incompatible"), (_FED_RE, "fedTwice")):
+        m = rx.match(s)
+        if m:
+            kw = None if m.group(4) == "None" else m.group(4)[1:-1]
+            ps = None if m.group(5) == "None" else int(m.group(5))
+            return [tag, [m.group(1), m.group(2), m.group(3), kw, ps]]
     for pre, tag in (("edge pointing from non-existent task ", "fromNoTask"), ("edge pointing from non-existent param ", "fromNoParam"),
                      ("edge pointing to non-existent task ", "toNoTask"), ("edge pointing to non-existent param ", "toNoParam")):
         if s.startswith(pre):
@@ -271,9 +443,37 @@ def snap_vals(d):
 
 
 def snap_task(t):
-    return {"kind": "task", "in": sorted([k, v] for k, v in t.definition.input_schema.items()),
-            "out": sorted([k, v] for k, v in t.definition.output_schema.items()),
+    d = t.definition
+    return {"kind": "task", "in": sorted([k, v] for k, v in d.input_schema.items()),
+            "out": sorted([k, v] for k, v in d.output_schema.items()),
+            "entry": d.entrypoint, "env": list(d.environment), "func": d.func is not None, "gpu": d.needs_gpu,
             "kw": snap_vals(t.static_input_kw), "ps": snap_vals(t.static_input_ps)}
+
+
+def fingerprint(o):
+    """EVERYTHING a real object holds, via pydantic's own `model_dump` (so fields this check does not know of are
+    included: definition.func, environment, entrypoint, needs_gpu, serdes, ext_outputs, ...). Used for the
+    non-mutation clause only: an earlier object must keep its fingerprint whatever is built later."""
+    from cascade.low.builders import JobBuilder
+    from cascade.low.func import Either
+    from pydantic import BaseModel
+
+    def dump(x):
+        if isinstance(x, BaseModel):
+            return {"cls": type(x).__name__, "dump": x.model_dump()}
+        return x
+    try:
+        if isinstance(o, dict):
+            body = o
+        elif isinstance(o, JobBuilder):
+            body = {"nodes": sorted(([n, dump(t)] for n, t in o.nodes.items()), key=lambda x: x[0]), "edges": [dump(e) for e in o.edges]}
+        elif isinstance(o, Either):
+            body = {"t": dump(o.t), "e": o.e}
+        else:
+            body = dump(o)
+        return json.dumps(body, sort_keys=True, default=repr)
+    except Exception as e:
+        return "unprintable:" + type(e).__name__
 
 
 def snap_edge(e):
@@ -312,7 +512,8 @@ def canon_model(j):
     """Model output -> same canonical form as `snap`."""
     k = j.get("kind")
     if k == "task":
-        return {"kind": "task", "in": sorted(j["in"]), "out": sorted(j["out"]), "kw": sorted(j["kw"]), "ps": sorted(j["ps"])}
+        return {"kind": "task", "in": sorted(j["in"]), "out": sorted(j["out"]), "entry": j.get("entry", ""), "env": j.get("env", []),
+                "func": j.get("func", True), "gpu": False, "kw": sorted(j["kw"]), "ps": sorted(j["ps"])}
     if k in ("builder", "job"):
         return {"kind": k, "nodes": sorted([[n, canon_model(t)] for n, t in j["nodes"]], key=lambda x: x[0]), "edges": j["edges"]}
     if k == "problems":
@@ -326,9 +527,17 @@ def real_op(store, op):
     kind = op["op"]
     try:
         if kind == "task":
-            ns = {}
-            exec(sig_source(op), ns)
-            return TaskBuilder.from_callable(ns["f"])
+            f = make_callable(op)
+            if not effective_signature_ok(f, op):
+                return {"kind": "invalid", "why": "harness: the generated callable does not have the described signature"}
+            env = op.get("env")
+            return TaskBuilder.from_callable(f) if env is None else TaskBuilder.from_callable(f, environment=list(env))
+        if kind == "entry":
+            env = op.get("env")
+            sch = {k: v for k, v in op["schema"]}
+            if env is None:
+                return TaskBuilder.from_entrypoint(op["entrypoint"], sch, op["out"])
+            return TaskBuilder.from_entrypoint(op["entrypoint"], sch, op["out"], environment=list(env))
         if kind == "values":
             t = store[op["t"]]
             if isinstance(t, dict):
@@ -345,15 +554,30 @@ def real_op(store, op):
             b = store[op["b"]]
             if isinstance(b, dict):
                 return {"kind": "invalid"}
-            return b.with_edge(op["src"], op["sink"], op["into"], op["frum"])
+            if "frum" in op:
+                return b.with_edge(op["src"], op["sink"], op["into"], op["frum"])
+            return b.with_edge(op["src"], op["sink"], op["into"])
         if kind == "build":
             b = store[op["b"]]
             if isinstance(b, dict):
                 return {"kind": "invalid"}
             return b.build()
     except Exception as e:
-        return {"kind": "crash", "err": type(e).__name__, "msg": str(e)[:120]}
+        return {"kind": "crash", "err": type(e).__name__, "where": _raised_in(e), "msg": str(e)[:120]}
     return {"kind": "invalid"}
+
+
+def _raised_in(e):
+    """name of the innermost function of builders.py on the traceback (which check raised)"""
+    import traceback
+    fn = "?"
+    try:
+        for fr, _ in traceback.walk_tb(e.__traceback__):
+            if fr.f_code.co_filename.endswith("builders.py"):
+                fn = fr.f_code.co_name
+    except Exception:
+        pass
+    return fn
 
 
 # ----------------------------------------------------------------------------- oracle
@@ -373,12 +597,21 @@ def compatible(out_ty, in_ty):
     return issubclass(a, b)
 
 
+def schema_type(how, ann):
+    """What the input/output schema may say for an annotation, from the property text's point of view: an absent
+    annotation, or one that is no class name at all (None, unions), constrains nothing; a class constrains by its name."""
+    if how in ("absent", "nameless") or ann is None:
+        return "Any"
+    return ann
+
+
 class Oracle:
     """What the property text demands, tracked from the ops alone (no model)."""
 
     def __init__(self):
         self.exp = []        # per object: expected description
         self.first = []      # per object: snapshot when created
+        self.fp = []         # per object: complete fingerprint when created
 
     def _exotic(self, desc):
         tys = [ty for t in desc["nodes"].values() for ty in list(self.exp[t]["in"].values()) + list(self.exp[t]["out"].values())]
@@ -391,13 +624,20 @@ class Oracle:
         exp = None
         fail = None
         if kind == "task":
+            kwp = [p for p in op["params"] if p["kind"] in ("posOrKw", "kwOnly")]
             exp = {"k": "task",
-                   "in": {p["name"]: (p["ann"] or "Any") for p in op["params"] if p["kind"] in ("posOrKw", "kwOnly")},
-                   "out": {"0": op["ret"] or "Any"},
-                   "kw": {p["name"]: (p["dflt"]["ty"], p["dflt"]["r"]) for p in op["params"] if p["kind"] in ("posOrKw", "kwOnly") and p["dflt"]},
-                   "ps": {}}
+                   "in": {p["name"]: schema_type(p.get("how", "class"), p["ann"]) for p in kwp},
+                   "out": {"0": schema_type(op.get("rhow", "class"), op["ret"])},
+                   "kw": {p["name"]: (p["dflt"]["ty"], p["dflt"]["r"]) for p in kwp if p["dflt"]},
+                   "ps": {}, "entry": "", "env": list(op.get("env") or []), "func": True}
             if crashed:
-                fail = ("from-callable-crash", {"exc": obj["err"]}, f"from_callable on `{sig_source(op).splitlines()[0]}` raised {obj['err']}: {obj['msg']}")
+                fail = ("from-callable-crash", {"exc": obj["err"], "form": op.get("form", "def")},
+                        f"from_callable on `{sig_source(op).strip().replace(chr(10), '; ')[-200:]}` raised {obj['err']}: {obj['msg']}")
+        elif kind == "entry":
+            exp = {"k": "task", "in": {k: v for k, v in op["schema"]}, "out": {"0": op["out"]}, "kw": {}, "ps": {},
+                   "entry": op["entrypoint"], "env": list(op.get("env") or []), "func": False}
+            if crashed:
+                fail = ("from-entrypoint-crash", {"exc": obj["err"]}, f"from_entrypoint raised {obj['err']}: {obj['msg']}")
         elif kind == "values":
             old = self.exp[op["t"]]
             if old is not None:
@@ -410,7 +650,7 @@ class Oracle:
                     fail = ("with-values-crash", {"exc": obj["err"]},
                             f"with_values(*{[v['r'] for v in op['args']]}, **{ {k: v['r'] for k, v in op['kwargs']} }) raised {obj['err']}: {obj['msg']}")
         elif kind == "builder":
-            exp = {"k": "builder", "nodes": {}, "edges": []}
+            exp = {"k": "builder", "nodes": {}, "edges": [], "default_out": []}
         elif kind == "node":
             old = self.exp[op["b"]]
             if old is not None and self.exp[op["t"]] is not None:
@@ -423,7 +663,9 @@ class Oracle:
             if old is not None:
                 exp = copy.deepcopy(old)
                 into = op["into"]
-                exp["edges"].append([op["src"], op["frum"], op["sink"], into if isinstance(into, str) else None, into if isinstance(into, int) else None])
+                # `frum` omitted: the edge starts at THE output a task made by from_callable / from_entrypoint has;
+                # which name that is, is read off the real source task when there is one (checked in _check_desc)
+                exp["edges"].append([op["src"], op.get("frum"), op["sink"], into if isinstance(into, str) else None, into if isinstance(into, int) else None])
                 if crashed:
                     fail = ("with-edge-crash", {"exc": obj["err"]}, f"with_edge raised {obj['err']}: {obj['msg']}")
         elif kind == "build":
@@ -434,22 +676,41 @@ class Oracle:
         self.exp.append(None if (crashed or exp is None) else exp)
         s = snap(obj)
         self.first.append(s)
+        self.fp.append(fingerprint(obj))
         # values / description clause on the new object
         if fail is None and exp is not None and not crashed:
             fail = self._check_desc(exp, s)
-        # persistence clause on every earlier object
+        # persistence clause on every earlier object: the complete fingerprint, not only what the model knows of
         if fail is None:
             for i in range(len(store) - 1):
-                now = snap(store[i])
-                if now != self.first[i]:
+                now = fingerprint(store[i])
+                if now != self.fp[i]:
                     fail = ("earlier-object-mutated", {"object": self.first[i].get("kind")},
-                            f"object #{i} ({self.first[i].get('kind')}) changed after op {op}: was {json.dumps(self.first[i])[:300]} now {json.dumps(now)[:300]}")
+                            f"object #{i} ({self.first[i].get('kind')}) changed after op {strip(op)}: was {self.fp[i][:300]} now {now[:300]}")
                     break
         return fail
 
     def _task_desc(self, e):
         return {"kind": "task", "in": sorted([k, v] for k, v in e["in"].items()), "out": sorted([k, v] for k, v in e["out"].items()),
+                "entry": e["entry"], "env": e["env"], "func": e["func"], "gpu": False,
                 "kw": sorted([k, v[0], v[1]] for k, v in e["kw"].items()), "ps": sorted([k, v[0], v[1]] for k, v in e["ps"].items())}
+
+    def _edges_desc(self, exp):
+        """described edges with the omitted `frum` resolved: the only output of the source task as described (tasks
+        made by from_callable / from_entrypoint have exactly one); dangling source: whatever the builder put."""
+        out = []
+        for e in exp["edges"]:
+            if e[1] is None:
+                t = exp["nodes"].get(e[0])
+                outs = sorted(self.exp[t]["out"]) if t is not None and self.exp[t] is not None else []
+                out.append([e[0], outs[0] if len(outs) == 1 else None] + e[2:])
+            else:
+                out.append(list(e))
+        return out
+
+    @staticmethod
+    def _edges_match(got, want):
+        return len(got) == len(want) and all(g == w or (w[1] is None and g[:1] + g[2:] == w[:1] + w[2:]) for g, w in zip(got, want))
 
     def _check_desc(self, exp, s):
         if exp["k"] == "task":
@@ -460,11 +721,60 @@ class Oracle:
                 return ("values-misbound", {}, f"bound values: expected keyword {want['kw']} positional {want['ps']}, task carries keyword {s['kw']} positional {s['ps']}")
             if s["in"] != want["in"] or s["out"] != want["out"]:
                 return ("schema-wrong", {}, f"schema: expected in {want['in']} out {want['out']}, got in {s['in']} out {s['out']}")
+            for key in ("entry", "env", "func", "gpu"):
+                if s[key] != want[key]:
+                    return ("definition-wrong", {"field": key}, f"task definition field {key}: expected {want[key]!r}, got {s[key]!r}")
         if exp["k"] == "builder":
             want_nodes = sorted([[n, self._task_desc(self.exp[t])] for n, t in exp["nodes"].items()], key=lambda x: x[0])
-            if s.get("kind") != "builder" or s["nodes"] != want_nodes or s["edges"] != exp["edges"]:
-                return ("builder-differs-from-description", {}, f"builder holds {json.dumps(s)[:400]}, described nodes {json.dumps(want_nodes)[:300]} edges {exp['edges']}")
+            want_edges = self._edges_desc(exp)
+            if s.get("kind") != "builder" or s["nodes"] != want_nodes or not self._edges_match(s["edges"], want_edges):
+                return ("builder-differs-from-description", {}, f"builder holds {json.dumps(s)[:400]}, described nodes {json.dumps(want_nodes)[:300]} edges {want_edges}")
         return None
+
+    def _expected_problems(self, desc):
+        """The problems the property text implies for a description (set of canonical problems), or None when a declared
+        type is not a builtin class (no opinion). Edge by edge: source task / source output / sink task / sink parameter
+        must exist, declared types must be compatible; a sink input may be fed by one edge only; a keyword static of a
+        declared parameter must be an instance of the declared class."""
+        if self._exotic(desc):
+            return None
+        out = set()
+        for n, t in desc["nodes"].items():
+            e = self.exp[t]
+            for k, (vty, vr) in e["kw"].items():
+                ty = e["in"].get(k)
+                if ty is None or ty == "Any":
+                    continue
+                try:
+                    v = eval(vr, {"__builtins__": {}}, {})
+                except Exception:
+                    return None
+                if not isinstance(v, _cls(ty)):
+                    out.add(json.dumps(["staticType", n, k, ty, vty]))
+        fed = set()
+        for (src, frum, sink, kw, ps) in self._edges_desc(desc):
+            st = desc["nodes"].get(src)
+            ot = None
+            if st is None:
+                out.add(json.dumps(["fromNoTask", src]))          # (which output the dangling edge names is immaterial)
+            else:
+                ot = self.exp[st]["out"].get(frum)
+                if ot is None:
+                    out.add(json.dumps(["fromNoParam", frum]))
+            kt = desc["nodes"].get(sink)
+            if kt is None:
+                out.add(json.dumps(["toNoTask", sink]))
+            elif kw is not None:
+                it = self.exp[kt]["in"].get(kw)
+                if it is None:
+                    out.add(json.dumps(["toNoParam", kw]))
+                elif ot is not None and compatible(ot, it) is False:
+                    out.add(json.dumps(["incompatible", [src, frum, sink, kw, ps]]))
+            key = (sink, "kw", kw) if kw is not None else (sink, "ps", ps)
+            if key in fed:
+                out.add(json.dumps(["fedTwice", [src, frum, sink, kw, ps]]))
+            fed.add(key)
+        return out
 
     def _check_build(self, desc, obj, crashed):
         from cascade.low.core import JobInstance
@@ -472,12 +782,33 @@ class Oracle:
         if crashed:
             if self._exotic(desc):
                 return None     # non-evaluable annotation: outside the property's quantifier
-            return ("build-crash", {"exc": obj["err"]}, f"build() raised {obj['err']}: {obj['msg']}")
+            return ("build-crash", {"exc": obj["err"], "where": obj.get("where")}, f"build() raised {obj['err']} in {obj.get('where')}: {obj['msg']}")
         if not isinstance(obj, Either):
             return ("build-result-shape", {}, f"build() returned {type(obj).__name__}")
+        want = self._expected_problems(desc)
+        if any(e[1] is None for e in self._edges_desc(desc) if e[0] in desc["nodes"]):
+            want = None     # (cannot happen: every described task has exactly one output)
         if obj.e:
             if obj.t is not None or not isinstance(obj.e, list) or not all(isinstance(x, str) for x in obj.e):
                 return ("build-result-shape", {}, f"build() returned problems {obj.e!r} together with {obj.t!r}")
+            if want is not None:
+                def norm(p):   # which output a DANGLING edge names is immaterial (and unknown to the oracle when `frum` was omitted)
+                    if p[0] == "fromNoTask":
+                        return p[:2]
+                    if p[0] in ("fedTwice", "incompatible") and isinstance(p[1], list) and p[1][0] not in desc["nodes"]:
+                        return [p[0], [p[1][0], None] + p[1][2:]]
+                    return p
+                got = {json.dumps(norm(p)) for p in map(parse_problem, obj.e)}
+                want = {json.dumps(norm(json.loads(w))) for w in want}
+                if not want:
+                    return ("rejected-well-formed-description", {"problem": sorted(json.loads(g)[0] for g in got)[0]},
+                            f"every edge of the description is well formed, yet build() returned problems {obj.e}")
+                if got - want:
+                    bad = sorted(got - want)[0]
+                    return ("unjustified-problem", {"problem": json.loads(bad)[0]}, f"build() reports {bad}, which the description does not have; expected problems {sorted(want)}")
+                if want - got:
+                    miss = sorted(want - got)[0]
+                    return ("problem-not-reported", {"problem": json.loads(miss)[0]}, f"build() returned problems {obj.e} but not {miss}")
             return None
         job = obj.t
         if not isinstance(job, JobInstance):
@@ -487,9 +818,10 @@ class Oracle:
         want_nodes = sorted([[n, self._task_desc(self.exp[t])] for n, t in desc["nodes"].items()], key=lambda x: x[0])
         if s["nodes"] != want_nodes:
             return ("job-differs-from-description", {"part": "tasks"}, f"job tasks {json.dumps(s['nodes'])[:400]} but described {json.dumps(want_nodes)[:400]}")
-        if s["edges"] != desc["edges"]:
-            return ("job-differs-from-description", {"part": "edges"}, f"job edges {s['edges']} but described {desc['edges']}")
+        if not self._edges_match(s["edges"], self._edges_desc(desc)):
+            return ("job-differs-from-description", {"part": "edges"}, f"job edges {s['edges']} but described {self._edges_desc(desc)}")
         # every edge well formed (on the job itself)
+        fed = {}
         for e in job.edges:
             st = job.tasks.get(e.source.task)
             if st is None:
@@ -505,6 +837,15 @@ class Oracle:
                 ot, it = st.definition.output_schema[e.source.output], kt.definition.input_schema[e.sink_input_kw]
                 if compatible(ot, it) is False:
                     return ("accepted-dangling-edge", {"which": "incompatible-type"}, f"accepted job has edge {snap_edge(e)} from output of type {ot} into parameter of type {it}")
+            # well formed for the scheduler: an input of a task has ONE source (precompute / param_source rely on it)
+            key = (e.sink_task, "kw", e.sink_input_kw) if e.sink_input_kw is not None else (e.sink_task, "ps", e.sink_input_ps)
+            if key in fed:
+                return ("accepted-input-fed-twice", {"same_source": fed[key] == (e.source.task, e.source.output)},
+                        f"accepted job feeds input {key[2]!r} of task {e.sink_task!r} by two edges: from {fed[key]} and from {(e.source.task, e.source.output)}")
+            fed[key] = (e.source.task, e.source.output)
+        if want:
+            miss = sorted(want)[0]
+            return ("accepted-ill-formed-description", {"problem": json.loads(miss)[0]}, f"build() accepted a description with the problem {miss}")
         return None
 
 
@@ -614,6 +955,9 @@ def _account(ctx, ops, stores):
     for o in ops:
         ctx.count("op:" + o["op"])
         if o["op"] == "task":
+            ctx.count("callable:" + o.get("form", "def"))
+            ctx.count("environment:" + ("omitted" if o.get("env") is None else "empty" if not o["env"] else "given"))
+            ctx.count("return-annotation:" + o.get("rhow", "class"))
             for p in o["params"]:
                 ctx.count("param:" + p["kind"])
                 ctx.count("annotation:" + p["how"])
@@ -626,6 +970,9 @@ def _account(ctx, ops, stores):
                 ctx.count("value-type:" + v["ty"])
         if o["op"] == "edge":
             ctx.count("edge:" + ("keyword" if isinstance(o["into"], str) else "positional"))
+            ctx.count("edge-frum:" + ("omitted" if "frum" not in o else "given"))
+        if o["op"] == "node" and o["name"] in ("", "a.b", "s.0"):
+            ctx.count("node-name:odd")
     nontrivial = False
     final = stores[-1] if stores else []
     for s in final:
